@@ -56,6 +56,7 @@ pub struct Observed {
 pub fn observe(out: &mut Out, sp: &mut ServerProc, pk: &[u8], nworkers: usize, rng: &mut Rng, window: Duration) -> Vec<(String, String)> {
     let mut v: Vec<(String, String)> = Vec::new();
     let t0 = Instant::now();
+    let drops0 = crate::inproc::udp_drops(sp.cfg.port).unwrap_or(0);
     // light traffic for the whole observation window, from fresh source ports: "stays alive and
     // answers requests" is judged over the window, not at two instants
     let bg_stop = std::sync::Arc::new(std::sync::atomic::AtomicBool::new(false));
@@ -168,8 +169,15 @@ pub fn observe(out: &mut Out, sp: &mut ServerProc, pk: &[u8], nworkers: usize, r
         sp.signal(libc::SIGSTOP);
         std::thread::sleep(Duration::from_millis(5));
         let mut pending = Vec::new();
-        for j in 0..80 {
-            let (pkt, nonce) = make_request(rng, if j % 2 == 0 { Proto::Classic } else { Proto::Ietf }, None);
+        // 70 minimum-size requests: more than one call may answer at batch_size 1, yet well inside
+        // the server socket's default receive buffer together with the background probes
+        for j in 0..70 {
+            let proto = if j % 2 == 0 { Proto::Classic } else { Proto::Ietf };
+            let nonce = rng.bytes(proto.nonce_len());
+            let pkt = match proto {
+                Proto::Classic => crate::refimpl::req::classic_request(&nonce, 1024),
+                Proto::Ietf => crate::refimpl::req::ietf_request(&[crate::refimpl::crypto::DRAFT13], None, &nonce, 1024),
+            };
             let _ = burst_sock.send_to(&pkt, addr);
             pending.push((pkt, nonce, if j % 2 == 0 { Proto::Classic } else { Proto::Ietf }));
         }
@@ -195,12 +203,12 @@ pub fn observe(out: &mut Out, sp: &mut ServerProc, pk: &[u8], nworkers: usize, r
         }
         out.obs("frozen_burst_with_health_phases", 1);
         if bad > 0 {
-            v.push(("C15 health unanswered-after-burst-wakeup".into(), format!("{} of {} health-check connections that arrived together with a burst of 80 requests (process stopped meanwhile) were not answered with HTTP 200 within 4 s: {}", bad, nconn, why)));
+            v.push(("C15 health unanswered-after-burst-wakeup".into(), format!("{} of {} health-check connections that arrived together with a burst of 70 requests (process stopped meanwhile) were not answered with HTTP 200 within 4 s: {}", bad, nconn, why)));
         }
         burst_sock.set_read_timeout(Some(Duration::from_millis(1500))).unwrap();
         let mut buf = vec![0u8; 4096];
         let mut answered = 0;
-        while answered < 80 {
+        while answered < 70 {
             match burst_sock.recv_from(&mut buf) {
                 Ok(_) => answered += 1,
                 Err(_) => break,
@@ -217,7 +225,12 @@ pub fn observe(out: &mut Out, sp: &mut ServerProc, pk: &[u8], nworkers: usize, r
     let (bg_ok, bg_unanswered, bg_invalid, bg_first) = bg.join().unwrap_or((0, 0, 0, None));
     out.obs("window_probes_answered", bg_ok as i64);
     let faulty = sp.cfg.fault_percentage.unwrap_or(0) > 0;
-    if bg_unanswered > 0 || (bg_invalid > 0 && !faulty) {
+    let drops_moved = crate::inproc::udp_drops(sp.cfg.port).map(|d| d != drops0).unwrap_or(false);
+    if bg_unanswered > 0 && bg_invalid == 0 && drops_moved {
+        // the kernel dropped datagrams at the server's socket (receive buffer full while the
+        // process was stopped): an unanswered probe is then not the server's doing
+        out.inconclusive("kernel drop counter moved during the observation window");
+    } else if bg_unanswered > 0 || (bg_invalid > 0 && !faulty) {
         v.push((
             format!("C15 window probes-{} workers={}", if bg_unanswered > 0 { "unanswered" } else { "invalid" }, if nworkers > 1 { ">1" } else { "1" }),
             format!("during the {:?} observation window {} probes went unanswered and {} got an invalid reply ({} answered): {}", window, bg_unanswered, bg_invalid, bg_ok, bg_first.unwrap_or_default()),
